@@ -268,7 +268,7 @@ impl Check for C10 {
 								.tag("params", &pdesc)
 								.tag("length", n)
 								.tag("panic", &m)
-								.tag("max", if param_has_max(&c.params) { "yes" } else { "no" }),
+								.tag("max", if param_has_max(&c.sut, &c.params) { "yes" } else { "no" }),
 						);
 					}
 					Made::Rejected(_) => {
@@ -442,10 +442,13 @@ fn cfg_has_max(cfg: &Value) -> bool {
 	left + right + 1 >= PMAX
 }
 
-fn param_has_max(p: &Params) -> bool {
+fn param_has_max(sut: &str, p: &Params) -> bool {
 	match p {
 		Params::Len(n) | Params::Ma(_, n) => *n == PMAX,
-		Params::Two(a, b) => *a == PMAX || *b == PMAX || a + b + 1 >= PMAX,
+		// reversal detectors: the known finding is the window of exactly MAX elements (left + right + 1 == MAX); larger
+		// sums are rejected with Err on the pinned tree and must stay rejected
+		Params::Two(a, b) if sut.contains("Reversal") => a + b + 1 == PMAX,
+		Params::Two(a, b) => *a == PMAX || *b == PMAX,
 		Params::Weights(w) => w.len() as u64 >= PMAX,
 		_ => false,
 	}
